@@ -568,6 +568,17 @@ func (pp *partitionProducer) dispatch() {
 			}
 		}
 
+		if pp.brokerProducer == nil && msg.retries > pp.highWatermark {
+			// a new retry level sends its fin chaser through the current broker producer: make sure there is one
+			// (the previous level may have ended on a failed leader lookup, leaving brokerProducer nil)
+			if err := pp.updateLeader(); err != nil {
+				pp.parent.returnError(msg, err)
+				pp.backoff(msg.retries)
+				continue
+			}
+			Logger.Printf("producer/leader/%s/%d selected broker %d\n", pp.topic, pp.partition, pp.leader.ID())
+		}
+
 		if msg.retries > pp.highWatermark {
 			// a new, higher, retry level; handle it and then back off
 			pp.newHighWatermark(msg.retries)
